@@ -54,7 +54,7 @@ Lemma own_step j sd : OwnInv j sd -> j < K ->
        bd_completed (sd_dissem sd') = Some (hb_hash hb, parent)).
 Proof.
   subst K. intros [Hp [Hm [Hl [Hc [Hk [Hnil [Hsh [Hnd [Hlen Hlk]]]]]]]]] Hj.
-  unfold bs_step, own_op. rewrite Hp, Hl.
+  unfold bs_step, bs_step_gen, own_op. rewrite Hp. cbn [andb]. rewrite Hl.
   destruct (hb_rslice_ok slot ct hb Hok j Hj) as [p [Hr Hct]]. rewrite Hct.
   assert (Hfirst : match bd_shreds (sd_dissem sd) with [] => true | _ :: _ => false end = (j =? 0)).
   { destruct (bd_shreds (sd_dissem sd)) eqn:E.
